@@ -35,7 +35,7 @@ func init() {
 			"typed-nil SOURCES and nil readers/writers are not generated (the no-panic clause names destination state and options)",
 			"whether the stream is closed is recorded, not judged (the statement has no closing clause)",
 			"a scripted read or write fault must surface as an error (a shorter success would be 'records delivered != parse of the input'); which error is not judged",
-			"for malformed input the error must be the reference parser's error (same text); for the io.WriterTo source, whose pipe can surface 'io: read/write on closed pipe' from the writing side first, any error is accepted and the difference is recorded",
+			"for malformed input the error must be the reference parser's error (same text); this includes the io.WriterTo source (whose pipe used to surface 'io: read/write on closed pipe' from the writing side first: repaired defect)",
 			"destination kinds the codec does not document must not panic and must not report success while dropping records",
 		},
 		MinNontrivial: 500,
@@ -693,7 +693,6 @@ func runProduce(m *mon.M, c *Case) {
 		} else if err.Error() != perr.Error() {
 			if c.Kind == "writerto" {
 				m.Class("writer-to-pipe-error-instead-of-parser-error")
-				return
 			}
 			m.Violate("not-the-parser-error/produce/"+sc, fmt.Sprintf("CSVProducer from %s: input %s options {%s}: encoding/csv says %q, the producer says %q", c.Kind, short([]byte(text)), c.Opts.set(), perr, err), c)
 		}
